@@ -16,7 +16,7 @@ TECHNIQUE = "Hypothesis rule-based state machine over construct / clone / set_pa
 ASSUMPTIONS = [
     "shared scorer instances are shared between detectors only (the property names sharing one cost object between several detectors)",
     "set_params updates are generated so that the resulting configuration is valid (checked by a trial construction); set_params resets the fitted state (sktime semantics), which the model mirrors",
-    "update uses pandas data whose index continues the training index or repeats its last 1-2 labels (the new rows win); the reference is fit on new.combine_first(old)",
+    "update uses pandas data whose index continues the training index, repeats its last 1-2 labels (the new rows win) or - a late chunk - lies before / between the rows seen so far; the reference is fit on one row per label (latest delivery wins) in label order",
     "outputs are compared at 1e-12 relative; exceptions must have the same class in the real and in the history-free execution",
     "the history-free execution receives the very same data objects as the real one (not copies): a deep copy can change the memory layout, hence the summation order and the last bits, hence the tie-breaking on exactly tied scores; mutation of the caller's data is detected by the pristine-copy invariant instead",
     "objects whose re-fit (or update) raised are retired from the comparison - detectors and stand-alone scorers alike: what they return afterwards is not defined by the property",
@@ -138,11 +138,20 @@ class Interpreter:
         return self.fresh_detector(m)
 
     def training_frame(self, m):
-        frame = None
+        import pandas as pd
+
+        if len(m["train"]) == 1:
+            return self.data[m["train"][0]]  # the very same object the real detector saw (see ASSUMPTIONS on memory layout)
+        # "the old and the new data combined", written out: one row per index label, the latest delivery of a label wins,
+        # rows in label order (whatever order the chunks arrived in)
+        rows = {}
         for d in m["train"]:
-            new = self.data[d]  # the very same object the real detector saw (see ASSUMPTIONS on memory layout)
-            frame = new if frame is None else new.combine_first(frame)
-        return frame
+            df = self.data[d]
+            for label, row in zip(df.index.tolist(), df.to_numpy(dtype=float)):
+                rows[label] = row
+        labels = sorted(rows)
+        first = self.data[m["train"][0]]
+        return pd.DataFrame(np.vstack([rows[k] for k in labels]), index=pd.Index(labels, name=first.index.name), columns=first.columns)
 
     # ---- invariants
     def check_invariants(self, where):
@@ -288,8 +297,8 @@ class Interpreter:
             return
         m = self.det_model[op["slot"]]
         d = op["data"]
-        if m["fitted"] and (not m["train"] or d <= max(m["train"]) or self.data[d].shape[1] != self.data[m["train"][0]].shape[1]):
-            return  # only data that continues the training index with the same columns
+        if m["fitted"] and (not m["train"] or d in m["train"] or self.data[d].shape[1] != self.data[m["train"][0]].shape[1]):
+            return  # a chunk with the same columns that was not delivered yet: after the known rows, or late (before / between them)
         real = outcome_of(lambda: self.det[op["slot"]].update(self.data[d]))
 
         def fresh_run():
@@ -301,6 +310,7 @@ class Interpreter:
         fresh = outcome_of(fresh_run)
         self._same_outcome("update", op, real, fresh, compare_value=False)
         if real[0] == "ok" and m["fitted"]:
+            self.stats["late_updates"] = self.stats.get("late_updates", 0) + (d < max(m["train"]))
             m["train"] = m["train"] + [d]
             self.stats["updates"] += 1
         elif real[0] != "ok" and m["fitted"]:
@@ -557,6 +567,8 @@ def summarize(interp, n_ops):
         classes.append("refit")
     if st_["updates"]:
         classes.append("update")
+    if st_.get("late_updates"):
+        classes.append("late_update_chunk")
     if st_["errors_matched"]:
         classes.append("matched_exception")
     if st_.get("degenerate_outputs"):
@@ -704,9 +716,12 @@ def make_machine(tier, api):
             fitted = sorted(s_ for s_, m in self.interp.det_model.items() if m["fitted"])
             slot = data.draw(st.sampled_from(fitted))
             m = self.interp.det_model[slot]
-            later = [d for d in range(self.n_data()) if d > max(m["train"])
+            cands = [d for d in range(self.n_data()) if d not in m["train"]
                      and len(self.datasets[d][0]) == len(self.datasets[m["train"][0]][0])]
-            d = data.draw(st.sampled_from(later)) if later else data.draw(st.integers(0, self.n_data() - 1))
+            later = [d for d in cands if d > max(m["train"])]
+            # mostly chunks that continue the known rows; sometimes a late one (rows before or between the known ones)
+            pool = later if later and data.draw(st.integers(0, 2)) else cands
+            d = data.draw(st.sampled_from(pool)) if pool else data.draw(st.integers(0, self.n_data() - 1))
             self.run({"op": "update", "slot": slot, "data": d})
 
         @precondition(lambda self: self.interp is not None and self.interp.det)
